@@ -8,8 +8,10 @@ import GridVerif.Gen.AtomGrid
 
 /-
   Driver of C05 (line protocol, see harness/props/c05.py).
-  `C05.ginit` / `C05.gpruned` / `C05.gcheck` run the definitions regenerated from atomgrid.py
-  (`Gen/AtomGrid.lean`) on Python-level arguments; `C05.sectors` / `C05.pruned` run the regenerated
+  `C05.ginit` / `C05.gpruned` / `C05.gcheck` / `C05.ggen` / `C05.gpreset` run the definitions
+  regenerated from atomgrid.py (`Gen/AtomGrid.lean`) on Python-level arguments (the token `default`
+  stands for an omitted argument: the regenerated default value is used); the shell grids they print
+  come from the regenerated `get_shell_grid`; `C05.sectors` / `C05.pruned` run the regenerated
   lookup *and* the hand model and answer `gen-model-mismatch` should they differ; `C05.build` is the
   hand-model constructor (kept; the harness uses `C05.ginit`).
 -/
@@ -27,6 +29,7 @@ def errTag : Err → Option String
   | .valueError => some "value-error"
   | .indexError => some "index-error"
   | .typeError => some "type-error"
+  | .keyError => some "key-error"
   | .noData => none
 
 def toV3s : List Float → Option (List (V3 Float))
@@ -71,7 +74,8 @@ def pPairsIntBool : Nat → List String → Option (List (Int × Bool) × List S
   | 0, rest => some ([], rest)
   | k + 1, i :: b :: rest => do
     let i ← pInt i
-    let b ← match b with | "1" => some true | "0" => some false | _ => none
+    -- `d`: `r_sq` omitted by the caller = the regenerated default
+    let b ← match b with | "1" => some true | "0" => some false | "d" => some Gen.AtomGrid.get_shell_grid_default_r_sq | _ => none
     let (more, tl) ← pPairsIntBool k rest
     pure ((i, b) :: more, tl)
   | _, _ => none
@@ -94,8 +98,9 @@ def findEntry (p : Preset) (z : Nat) : Option Entry :=
 
 /-! ### Python-level arguments of the generated definitions (`Gen/AtomGrid.lean`) -/
 
-/-- `none` | `other` | `seq <vec>` -/
-def pSeqArg : List String → Option (SeqArg × List String)
+/-- `none` | `other` | `seq <vec>` | `default` (argument omitted: `dflt`) -/
+def pSeqArg (dflt : SeqArg) : List String → Option (SeqArg × List String)
+  | "default" :: rest => some (dflt, rest)
   | "none" :: rest => some (.none, rest)
   | "other" :: rest => some (.other, rest)
   | "seq" :: rest => do
@@ -103,16 +108,18 @@ def pSeqArg : List String → Option (SeqArg × List String)
     pure (.seq xs, rest)
   | _ => none
 
-/-- `none` | `seq <vec>` -/
-def pOptNats : List String → Option (Option (List Nat) × List String)
+/-- `none` | `seq <vec>` | `default` -/
+def pOptNats (dflt : Option (List Nat)) : List String → Option (Option (List Nat) × List String)
+  | "default" :: rest => some (dflt, rest)
   | "none" :: rest => some (none, rest)
   | "seq" :: rest => do
     let (xs, rest) ← pVec pNat rest
     pure (some xs, rest)
   | _ => none
 
-/-- `int n` | `npint n` | `bool 0|1` | `other` -/
-def pRotArg : List String → Option (RotArg × List String)
+/-- `int n` | `npint n` | `bool 0|1` | `other` | `default` -/
+def pRotArg (dflt : RotArg) : List String → Option (RotArg × List String)
+  | "default" :: rest => some (dflt, rest)
   | "int" :: n :: rest => do pure (.int (← pInt n), rest)
   | "npint" :: n :: rest => do pure (.npInt (← pInt n), rest)
   | "bool" :: "0" :: rest => some (.bool false, rest)
@@ -120,8 +127,9 @@ def pRotArg : List String → Option (RotArg × List String)
   | "other" :: rest => some (.other, rest)
   | _ => none
 
-/-- `none` | `vec <vec>` -/
-def pCenter : List String → Option (Option (List Float) × List String)
+/-- `none` | `vec <vec>` | `default` -/
+def pCenter (dflt : Option (List Float)) : List String → Option (Option (List Float) × List String)
+  | "default" :: rest => some (dflt, rest)
   | "none" :: rest => some (none, rest)
   | "vec" :: rest => do
     let (xs, rest) ← pVec pFloat rest
@@ -172,37 +180,99 @@ def sGrid (env : Env Float) (mats : List (Nat × M3 Float)) (sgs : List (Int × 
         sgs.filterMap fun (i, _) => if 0 ≤ i ∧ i < n then some (shellGridSeed g.rotate i.toNat) else none
        else [])
     if need.any fun s => (mats.find? fun q => q.1 == s).isNone then none else do
+    -- the regenerated `get_shell_grid` (proved equal to `getShellGrid` on built grids)
     let sg ← sgs.mapM fun (i, b) =>
-      match getShellGrid env g i b with
-      | .ok (p, w) => some s!"sg-ok {sV3s p} {sFloats w}"
+      match Gen.AtomGrid.get_shell_grid env g i b with
+      | .ok a => some s!"sg-ok {sV3s a.points} {sFloats a.weights}"
       | .error e => (errTag e).map ("sg-" ++ ·)
     pure (String.intercalate " "
       (["ok", sNats g.indices, sNats g.degrees, toString g.size, sV3s g.points, sFloats g.weights] ++ sg))
+
+/-- the world of `from_preset`: `(none | entry atnum rmin rmax npt) angstrom bohr (nogrid | grid rmin rmax npt <rgrid>)`:
+the entry of `_DEFAULT_POWER_RTRANSFORM_PARAMS` for the element, the two SciPy constants, and what
+`PowerRTransform(rmin, rmax).transform_1d_grid(UniformInteger(npt))` is for one triple of arguments
+(compared bit for bit; any other triple yields a grid that is not a `OneDGrid`, which the regenerated
+`_input_type_check` rejects — the harness then sees a `type-error` where the library builds a grid) -/
+def pPresetWorld (rest : List String) : Option (PresetWorld Float × List String) := do
+  let (dp, rest) ← (match rest with
+    | "none" :: r => some ([], r)
+    | "entry" :: z :: a :: b :: n :: r => do pure ([(← pNat z, (← pFloat a, ← pFloat b, ← pNat n))], r)
+    | _ => none : Option (List (Nat × (Float × Float × Nat)) × List String))
+  let a :: b :: rest := rest | none
+  let ang ← pFloat a
+  let bohr ← pFloat b
+  let (tbl, rest) ← (match rest with
+    | "nogrid" :: r => some (none, r)
+    | "grid" :: x :: y :: n :: r => do
+      let (g, r) ← pRGrid r
+      pure (some (← pFloat x, ← pFloat y, ← pNat n, g), r)
+    | _ => none : Option (Option (Float × Float × Nat × RGrid Float) × List String))
+  let sentinel : RGrid Float := ⟨false, none, [], []⟩
+  pure ({ defaultParams := dp, angstrom := ang, atomicUnitOfLength := bohr,
+          powerTransformGrid := fun x y u => match tbl with
+            | some (x0, y0, n0, g) => if x.toBits == x0.toBits && y.toBits == y0.toBits && u.npoints == n0 then g else sentinel
+            | none => sentinel,
+          toK := dyadicToFloat }, rest)
 
 def handle : List String → Option String
   | "C05.ginit" :: m :: rest => do
     -- the regenerated constructor: degrees sizes center rotate rgrid, then the world
     let (dg, np) ← tablesOf m
-    let (degrees, rest) ← pSeqArg rest
-    let (sizes, rest) ← pSeqArg rest
-    let (center, rest) ← pCenter rest
-    let (rotate, rest) ← pRotArg rest
+    let (degrees, rest) ← pSeqArg Gen.AtomGrid.init_default_degrees rest
+    let (sizes, rest) ← pSeqArg Gen.AtomGrid.init_default_sizes rest
+    let (center, rest) ← pCenter (Gen.AtomGrid.init_default_center Float) rest
+    let (rotate, rest) ← pRotArg Gen.AtomGrid.init_default_rotate rest
     let (rg, rest) ← pRGrid rest
     let (env, mats, sgs) ← pWorld dg np rest
     sGrid env mats sgs (Gen.AtomGrid.init env rg degrees sizes center rotate)
   | "C05.gpruned" :: m :: rest => do
     -- the regenerated from_pruned: d_sectors s_sectors radius r_sectors center rotate rgrid, then the world
     let (dg, np) ← tablesOf m
-    let (dsec, rest) ← pOptNats rest
-    let (ssec, rest) ← pOptNats rest
+    let (dsec, rest) ← pOptNats Gen.AtomGrid.from_pruned_default_d_sectors rest
+    let (ssec, rest) ← pOptNats Gen.AtomGrid.from_pruned_default_s_sectors rest
     let r :: rest := rest | none
     let radius ← pFloat r
     let (rsect, rest) ← pVec pFloat rest
-    let (center, rest) ← pCenter rest
-    let (rotate, rest) ← pRotArg rest
+    let (center, rest) ← pCenter (Gen.AtomGrid.from_pruned_default_center Float) rest
+    let (rotate, rest) ← pRotArg Gen.AtomGrid.from_pruned_default_rotate rest
     let (rg, rest) ← pRGrid rest
     let (env, mats, sgs) ← pWorld dg np rest
     sGrid env mats sgs (Gen.AtomGrid.from_pruned env rg radius rsect dsec ssec center rotate)
+  | "C05.ggen" :: m :: rest => do
+    -- the regenerated static method `_generate_atomic_grid(rgrid, degrees, rotate=…, method=…)`
+    let (dg, np) ← tablesOf m
+    let (degrees, rest) ← pVec pNat rest
+    let (rotate, rest) ← pRotArg Gen.AtomGrid.generate_atomic_grid_default_rotate rest
+    let (rg, rest) ← pRGrid rest
+    let (env, mats, _) ← pWorld dg np rest
+    match Gen.AtomGrid.generate_atomic_grid env rg degrees rotate with
+    | .error e => errTag e
+    | .ok (p, w, idx, dgs) =>
+      -- every matrix the loop asked for must have been supplied (errors do not depend on them)
+      let need := if rotate.isInt && rotate.val != 0 then (List.range degrees.length).map fun (i : Nat) => rotate.val + (i : Int) else []
+      if need.any fun s => (mats.find? fun q => (q.1 : Int) == s).isNone then none else
+      pure (String.intercalate " " ["ok", sV3s p, sFloats w, sNats idx, sNats dgs])
+  | "C05.gpreset" :: m :: z :: p :: rest => do
+    -- the regenerated `from_preset(atnum, preset, rgrid, center, rotate, method)`: (none | default | some <rgrid>) center rotate, the preset world, the world
+    let (dg, np) ← tablesOf m
+    let z ← pNat z
+    let p ← Preset.ofName? p
+    let (rgo, rest) ← (match rest with
+      | "default" :: r => some (Gen.AtomGrid.from_preset_default_rgrid Float, r)
+      | "none" :: r => some (none, r)
+      | "some" :: r => do
+        let (g, r) ← pRGrid r
+        pure (some g, r)
+      | _ => none : Option (Option (RGrid Float) × List String))
+    let (center, rest) ← pCenter (Gen.AtomGrid.from_preset_default_center Float) rest
+    let (rotate, rest) ← pRotArg Gen.AtomGrid.from_preset_default_rotate rest
+    let (world, rest) ← pPresetWorld rest
+    let (env, mats, sgs) ← pWorld dg np rest
+    sGrid env mats sgs (Gen.AtomGrid.from_preset env world z p rgo center rotate)
+  | "C05.default-method" :: [] =>
+    pure (String.intercalate " " ["ok", Gen.AtomGrid.init_default_method, Gen.AtomGrid.from_pruned_default_method,
+      Gen.AtomGrid.from_preset_default_method, Gen.AtomGrid.generate_atomic_grid_default_method,
+      Gen.AtomGrid.generate_degree_from_radius_default_method])
   | "C05.gcheck" :: rest => do
     -- the regenerated _input_type_check
     let (rg, rest) ← pRGrid rest
